@@ -30,6 +30,23 @@ CHECKS = {
         technique="Lean 4 proof over hand-written query model + structural capture correspondence + float cross-backend check",
         design="6/C01",
     ),
+    "C03": dict(
+        text=("Model/Experiment.lean lists the materialisations of Experiment.analyze / solve_power as a trace of events. "
+              "Theorems for ANY number of metrics, columns, variants and pairs: an experiment of aggregated metrics has "
+              "the trace [one grouped aggregate fetch of the merged request]; row-level metrics add exactly one fetch whose "
+              "columns are the de-duplicated union of the declared columns plus the variant column; the trace does not "
+              "depend on the number of pairs; solve_power is one ungrouped fetch; and over the query algebra of C01 every "
+              "one of the three pipelines returns one row per distinct variant (one row ungrouped) for every request and "
+              "table. Tie: the REAL materialisations are recorded (class-level wrappers on all Ibis to_*/execute methods "
+              "and polars.LazyFrame.collect/fetch/profile, plus the SQLite statement trace) and must equal the model's "
+              "trace event by event with the requested statistics, row counts and columns. Search: first definition with "
+              "more fetches, rows or columns than the model's."),
+        note=NOTE_COMMON + "Hypothesis `Declares` (every metric declares a statistic or column; plain metrics read the "
+             "data themselves) is shown necessary by a kernel-checked example. Lazy backends available here: Ibis-SQLite "
+             "and Polars LazyFrame; other Ibis backends share the same Python code path but are not executed.",
+        technique="Lean 4 proof over hand-written trace model + recorded-materialisation correspondence",
+        design="6/C03",
+    ),
     "C14": dict(
         text=("Theorems over the Lean definitions regenerated from aggr.py on every run: aggrOf(s1++s2) = aggrOf s1 + "
               "aggrOf s2 for all sample sizes >= 2 in any ordered field, commutativity, associativity, ratio_var/"
